@@ -103,18 +103,24 @@ MLowBits(m, k) == IF k = 0 THEN <<>>
 MPow2(k) == MShl(<<1>>, k)
 MIsEven(m) == m = <<>> \/ m[1] % 2 = 0
 
-(* long division, bit serial: [q, r]; b # <<>> *)
-RECURSIVE MDivBits(_, _, _, _, _)
-MDivBits(a, b, i, q, r) ==
-    IF i < 0 THEN [q |-> q, r |-> r]
-    ELSE LET r2 == MAdd(MMulLimb(r, 2), IF MBit(a, i) = 1 THEN <<1>> ELSE <<>>)
-             ge == MCmp(r2, b) >= 0
-         IN MDivBits(a, b, i - 1,
-                     MAdd(MMulLimb(q, 2), IF ge THEN <<1>> ELSE <<>>),
-                     IF ge THEN MSub(r2, b) ELSE r2)
+(* long division by limbs (Knuth D with a simple correction loop): [q, r]; Len(b) >= 2 *)
+RECURSIVE MDivFix(_, _, _)
+MDivFix(v, R, qh) == IF qh > 0 /\ MCmp(MMulLimb(v, qh), R) > 0 THEN MDivFix(v, R, qh - 1) ELSE qh
+RECURSIVE MDivLimbs(_, _, _, _, _)
+MDivLimbs(u, v, j, q, R) ==
+    IF j = 0 THEN [q |-> MNorm(q), r |-> R]
+    ELSE LET n  == Len(v)
+             R1 == IF R = <<>> THEN (IF u[j] = 0 THEN <<>> ELSE <<u[j]>>) ELSE <<u[j]>> \o R
+             est == IF Len(R1) < n THEN 0
+                    ELSE IF Len(R1) = n THEN R1[n] \div v[n]
+                    ELSE IMin(BASE - 1, (R1[n + 1] * BASE + R1[n]) \div v[n])
+             qh == IF est = 0 THEN 0 ELSE MDivFix(v, R1, est)
+         IN MDivLimbs(u, v, j - 1, [q EXCEPT ![j] = qh], IF qh = 0 THEN R1 ELSE MSub(R1, MMulLimb(v, qh)))
 MDivMod(a, b) == IF Len(b) = 1 THEN LET d == MDivLimb(a, b[1]) IN [q |-> d.q, r |-> IF d.r = 0 THEN <<>> ELSE <<d.r>>]
                  ELSE IF MCmp(a, b) < 0 THEN [q |-> <<>>, r |-> a]
-                 ELSE MDivBits(a, b, MBitLen(a) - 1, <<>>, <<>>)
+                 ELSE LET sh == LB - TopBits(b[Len(b)])
+                          d  == MDivLimbs(MShl(a, sh), MShl(b, sh), Len(MShl(a, sh)), MShl(a, sh), <<>>)
+                      IN [q |-> d.q, r |-> MShr(d.r, sh)]
 
 RECURSIVE MFromNat(_)
 MFromNat(n) == IF n = 0 THEN <<>> ELSE <<n % BASE>> \o MFromNat(n \div BASE)
